@@ -113,7 +113,8 @@ PROPS = {
         "modules": ["CambrianModel.Props.C16"],
         "theorems": ["Cambrian.Props.C16_argv", "Cambrian.Props.C16_argv_last_two", "Cambrian.Props.C16_classify", "Cambrian.Props.C16_accept_iff",
                      "Cambrian.Props.C16_invalid_before_start", "Cambrian.Props.C16_outdir_refused", "Cambrian.Props.C16_success",
-                     "Cambrian.Props.C16_child_failure", "Cambrian.Props.C16_criteria_conflict", "Cambrian.Props.C16_criteria_budget"],
+                     "Cambrian.Props.C16_child_failure", "Cambrian.Props.C16_criteria_conflict", "Cambrian.Props.C16_criteria_budget",
+                     "Cambrian.Props.C16_schema", "Cambrian.Props.C16_schema_value", "Cambrian.Props.C16_schema_array"],
         "correspondences": ["proc", "run"],
         "trusted": PROC_TRUST,
         "assumptions": ["partial: the glue (argument parsing, files, spawning) is compared on generated scenarios, not proved"],
